@@ -40,7 +40,7 @@ func exec(c vh.Case, o *vh.Out) {
 			w = pinh.NewWorld(line)
 			cur = w.Query()
 			o.Emit("ok")
-		case "pin", "pinmode", "unpin", "update":
+		case "pin", "pinmode", "unpin", "update", "autosync", "flush":
 			before := cur
 			presentBefore := fmt.Sprint(w.Present)
 			want, known := w.ExpectOK(f)
@@ -54,7 +54,7 @@ func exec(c vh.Case, o *vh.Out) {
 			muts++
 			after := w.Query()
 			cur = after
-			if tok == "ok" {
+			if tok == "ok" || strings.HasPrefix(tok, "was") {
 				w.ApplySpec(f)
 			} else {
 				fails++
